@@ -20,6 +20,9 @@ class Field:
     _isFeField = True
     """marks the class for :mod:`._linalg`, which cannot import it without a cycle"""
 
+    __array_priority__ = 100.0
+    """a plain ndarray on the left defers to the reflected operators below"""
+
     def __init__(
         self,
         groupElem: _GroupElem,
